@@ -265,6 +265,16 @@ Proof.
   destruct (pos_fold_write (kv :: pages) s) as [D [E F]]. cbn zeta in D, E, F. repeat split; congruence.
 Qed.
 
+Theorem chain_import s pages commit ok s' : Chain s -> op_import s pages commit ok = (Done, s') -> Chain s'.
+Proof.
+  intros [Hl He] H. unfold op_import in H. destruct (writeable s); cbn [negb] in H; [|discriminate].
+  destruct ok; cbn [negb] in H; [|discriminate].
+  apply apply_done in H. destruct H as [Et [Ec [_ Ed]]]. cbn [ltxdir with_dirty with_wal with_dir] in Ed.
+  unfold Chain. rewrite Ed, Et, Ec. split; [|apply ends_at_app].
+  apply linked_app_one; [assumption|]. unfold ends_at in He. cbn [l_min l_pre]. destruct (rev (ltxdir s)) as [|g l]; [exact I|].
+  destruct He as [A B]. split; congruence.
+Qed.
+
 Definition ok_op (s : st) (o : op) : Prop :=
   match o with
   | ORetention ages backup hwm =>
@@ -290,6 +300,7 @@ Proof.
   - inversion H; subst. exact HC.
   - eapply chain_receive; eassumption.
   - eapply chain_retention; [exact HC|exact Hok|exact H].
+  - eapply chain_import; eassumption.
 Qed.
 
 Lemma chain_init lock : Chain (init lock).
@@ -320,3 +331,4 @@ Proof. unfold op_receive_checked. destruct (negb (is_snapshot f) && negb (extend
 Theorem receive_checked_rejects_nonextending s f ok :
   is_snapshot f = false -> extends_pos s f = false -> op_receive_checked s f ok = (Failed, s).
 Proof. intros H1 H2. unfold op_receive_checked. rewrite H1, H2. reflexivity. Qed.
+
